@@ -90,6 +90,21 @@ pub fn check(id: &str, tier: Tier) -> i32 {
     c.min_seg = 0;
     mem.push(c);
   }
+  // every call goes through a clone of the arena value (the original stays alive next to it)
+  for (fl, b, u) in [(Fl::Optimistic, Backend::Vec, true), (Fl::Pessimistic, Backend::Vec, false), (Fl::None, Backend::Anon, true)] {
+    let mut c = Cfg::new(fl, b, u, if u { cap_unify } else { cap_plain });
+    c.via_clone = true;
+    mem.push(c);
+  }
+  if id == "C11" {
+    // `maximum_retries` is an option like any other: the lock-free arena gives up after that many attempts, the
+    // single-threaded one has no use for it; on one thread no attempt is ever lost, so they must still agree
+    for (fl, retries) in [(Fl::Optimistic, 0u8), (Fl::Pessimistic, 0), (Fl::Optimistic, 1), (Fl::Pessimistic, 1)] {
+      let mut c = Cfg::new(fl, Backend::Vec, true, cap_unify);
+      c.retries = retries;
+      mem.push(c);
+    }
+  }
   explore(&run, &spec, &mem, &all_starts, id);
   let mut passes = vec![json!({"cells": mem.len(), "starts": all_starts.len(), "alphabet": alphabet.len(), "depth": depth, "wall_s": t0.elapsed().as_secs_f64()})];
   if id == "C03" {
@@ -285,7 +300,8 @@ fn c13_twins<A: Subject>(run: &Run, cfg: &Cfg, st: &Start, alphabet: &[Op], dept
       while !r.slots.is_empty() {
         r.step(Op::D(0), O_RELEASE, &mut vv);
       }
-      if r.a.refs() != 1 {
+      let base_refs = if cfg.via_clone { 2 } else { 1 };
+      if r.a.refs() != base_refs {
         vv.push(Viol { flag: O_RELEASE, class: "refs-after-all-drops".into(), msg: format!("refs() = {} after all handles were dropped", r.a.refs()) });
       }
       for x in vv {
@@ -427,6 +443,20 @@ pub fn c13_single_threaded(run: &Run, thorough: bool) {
             continue;
           }
           items.push((Cfg::new(fl, b, u, if u || b == Backend::File { 256 } else { 225 }), si, sync));
+        }
+      }
+    }
+  }
+  // the library's default minimum segment size (20: a 16-byte extent is given up as discarded and `dealloc` returns
+  // false) and 0 (everything that can hold a node word is listed); and calls that go through a clone
+  for fl in [Fl::Optimistic, Fl::Pessimistic] {
+    for (min_seg, via) in [(20u32, false), (0, false), (20, true)] {
+      for si in [0usize, 1] {
+        for sync in [true, false] {
+          let mut c = Cfg::new(fl, Backend::Vec, true, 256);
+          c.min_seg = min_seg;
+          c.via_clone = via;
+          items.push((c, si, sync));
         }
       }
     }
